@@ -23,6 +23,8 @@ type workerResult struct {
 	stderr   string
 	stdout   []byte
 	killed   bool
+	from     int
+	firstuse int
 	raceLogs []string
 }
 
